@@ -125,7 +125,10 @@ func runRL(x *X) {
 	x.Logf("rl %s %v", x.Sample["config"], desc)
 
 	s := x.StartMicro()
-	onErr := func(e *simrt.SchedError) { x.Violate("C12", "C12/"+e.Kind+"{rl}", "%s", e.Error()) }
+	onErr := func(e *simrt.SchedError) {
+		x.Violate("C12", "C12/"+e.Kind+"{rl}", "%s", e.Error())
+		x.Blocked(e, "rl")
+	}
 	var l1, l2 *ratelimiter.TokenBucketRateLimiter
 	x.Do("setup", func() {
 		l1 = ratelimiter.NewTokenBucketRateLimiter(max, refill)
@@ -212,6 +215,30 @@ func runRL(x *X) {
 		one("B", 1, false)
 		one("A", max+1, true)
 		x.Probe("expiry-pattern")
+	}
+
+	// Biased closing pattern: a client that has been away long enough for its bucket to be
+	// dropped comes back at the very instant of a cleanup tick -- its requests interleave with the
+	// sweep that is deciding about its bucket. (Only the limiter under test is asked: a tie
+	// with a tick would make the differential oracle depend on which limiter sweeps first.)
+	if c.Intn(3, "return-at-cleanup-tick") == 0 && !x.dead {
+		client := names[c.Intn(nClients, "returning-client")]
+		x.Do("pattern", func() { runScript(client, []rlOp{{kind: "allow", n: max + 1}}, false) }, onErr)
+		idle := time.Hour
+		if full := time.Duration(max) * refill; full > idle {
+			idle = full
+		}
+		const tick = 10 * time.Minute
+		target := (x.Now() + idle + tick) / tick * tick
+		tasks := 1 + c.Intn(2, "returning-tasks")
+		for j := 0; j < tasks; j++ {
+			s.Spawn("returning-"+client, func() {
+				TaskSleep(target - x.Now())
+				runScript(client, []rlOp{{kind: "allow", n: max + 1}}, false)
+			})
+		}
+		x.RunTasks(onErr)
+		x.Probe("return-at-cleanup-tick")
 	}
 
 	// ---- oracles over the history ----------------------------------------------
@@ -324,7 +351,10 @@ func runRLLB(x *X) {
 		net.add(fmt.Sprintf("b%d", i), x.BackendHost(6, i+1), "")
 		bcs = append(bcs, config.BackendConfig{Name: fmt.Sprintf("b%d", i), Address: "http://" + x.BackendHost(6, i+1), Weight: 1})
 	}
-	onErr := func(e *simrt.SchedError) { x.Violate("C12", "C12/"+e.Kind+"{rllb}", "%s", e.Error()) }
+	onErr := func(e *simrt.SchedError) {
+		x.Violate("C12", "C12/"+e.Kind+"{rllb}", "%s", e.Error())
+		x.Blocked(e, "rllb")
+	}
 	var h *lbHarness
 	x.Do("setup", func() {
 		h, _ = newLBHarness(x, net, lbOpts{strategy: strategy, backends: bcs, limiter: &config.RateLimitConfig{Enabled: true, MaxTokens: max, RefillRate: refillS}})
